@@ -462,10 +462,60 @@ func $ND(a int) (res int) {
 }`, entries: []*Entry{callEntry("$NC", 1, nil), callEntry("$ND", 1, [][]int{{0}})}},
 }
 
+// multi-value short declarations whose names shadow package-level variables / locals of the enclosing function: they
+// declare locals of the generator; two live iterators of the same generator must not share them
+var shadowingStateShapes = []shape{
+	{name: "multi-define-shadowing-outer-variables-under-interleaving", decls: `
+var $Nlo, $Nhi = 100, 200
+
+$GEN{$NSpan(from int, n int)}{int}{
+	$Nlo, $Nhi := from, from+n
+	for i := $Nlo; i < $Nhi; i++ {
+		$YIELD{i}
+	}
+	$RET
+}
+
+func $NC(a int) (res int) {
+	x, y := $NSpan(0, 3), $NSpan(10+a, 3)
+	for k := 0; k < 4; k++ {
+		if x.MoveNext() {
+			res = res*7 + x.Current()
+			tr.Ev(1, x.Current())
+		}
+		if y.MoveNext() {
+			res = res*7 + y.Current()
+			tr.Ev(2, y.Current())
+		}
+	}
+	tr.Ev(3, $Nlo, $Nhi)
+	mk := func(base int) $ITER{int} {
+		cur, end := 0, 0
+		gen := $GEN{(from int)}{int}{
+			cur, end := from, from+2
+			for ; cur < end; cur++ {
+				$YIELD{cur + base}
+			}
+			$RET
+		}
+		_, _ = cur, end
+		return gen(base)
+	}
+	p, q := mk(1), mk(5)
+	for p.MoveNext() && q.MoveNext() {
+		res = res*3 + p.Current() + q.Current()
+	}
+	return
+}`, entries: []*Entry{callEntry("$NC", 1, nil)}},
+}
+
 func iteratorValuePrograms() []*Program {
 	var out []*Program
 	for i, sh := range iteratorValueShapes {
 		out = append(out, mkShapeProgram("V"+itoa(100+i), sh))
+	}
+	for i, sh := range shadowingStateShapes {
+		out = append(out, mkShapeProgram("V"+itoa(200+i), sh))
 	}
 	return out
 }
